@@ -71,9 +71,10 @@ def main():
                         break
                     open(target, "a").write("\n" + "\n".join(added) + "\n")
                 if rc == 0:
-                    rb, ob = sh([GO, "build", "./..."], cwd=wt)
-                    if rb != 0:
-                        rc, out = 1, "rebased patch does not build: " + ob[-400:]
+                    for m in [".", "stores/sqlite", "stores/durablestream", "otel"]:
+                        rb, ob = sh([GO, "build", "./..."], cwd=os.path.join(wt, m))
+                        if rb != 0:
+                            rc, out = 1, "rebased patch does not build: " + ob[-400:]
                 res["hunks_relocated"] = True
             if rc == 0:
                 sh(["git", "reset", "-q"], cwd=wt)
